@@ -24,6 +24,15 @@
 //!  * the arm `lir::Instruction::ConstantAddress` of the code generator
 //!    (src/codegen/mod.rs): where the pointer comes from, in order
 //!    (`cgConstantAddress`).
+//!
+//! `c14edges` → `Generated/C14Edges.lean`: where the reference graph gets its
+//! edges.  `resolve_expression_path` (src/typechecker/expr.rs) is walked path by
+//! path: for every exit `Ok(ResolvedPath::X …)` of every arm of
+//! `match &dec.kind` the table `exits` says under which condition
+//! `self.references.add_edge(ctx.item, dec.name)` has been executed before it
+//! (`always`, `never`, or for which `ValueKind`s).  An `add_edge` in a position
+//! the walk does not understand is an extraction failure.
+//!
 //! Every statement of these arms must be one the translator knows: a statement
 //! that consults or updates anything else (a table of earlier reads, a flag) is
 //! an extraction failure.
@@ -35,7 +44,7 @@ use std::collections::HashMap;
 use std::path::Path;
 use syn::visit::Visit;
 
-pub const TARGETS: &[Target] = &[("c14emit", "C14Emit", c14emit as Gen), ("c14read", "C14Read", c14read as Gen)];
+pub const TARGETS: &[Target] = &[("c14emit", "C14Emit", c14emit as Gen), ("c14read", "C14Read", c14read as Gen), ("c14edges", "C14Edges", c14edges as Gen)];
 
 fn norm<T: ToTokens>(t: &T) -> String {
     t.to_token_stream().to_string().replace(' ', "")
@@ -700,5 +709,275 @@ fn c14read(repo: &Path) -> Result<String, String> {
     s.push_str("/-- code generator, arm `lir::Instruction::ConstantAddress { to, name }`: where the pointer comes from, in order -/\n");
     s.push_str(&format!("def cgConstantAddress : List CgAddrAct := {}\n", lean_list(&addr)));
     s.push_str("\nend RotoV.Gen.C14Read\n");
+    Ok(s)
+}
+
+
+// ---------------------------------------------------------------------------
+// c14edges: on which paths of `resolve_expression_path` the edge is recorded
+
+#[derive(Clone, PartialEq, Debug)]
+enum EdgeGuard {
+    Never,
+    Always,
+    Kinds(Vec<String>),
+}
+
+impl EdgeGuard {
+    fn meet(&self, o: &EdgeGuard) -> EdgeGuard {
+        use EdgeGuard::*;
+        match (self, o) {
+            (Never, _) | (_, Never) => Never,
+            (Always, x) | (x, Always) => x.clone(),
+            (Kinds(a), Kinds(b)) => {
+                let v: Vec<String> = a.iter().filter(|k| b.contains(k)).cloned().collect();
+                if v.is_empty() { Never } else { Kinds(v) }
+            }
+        }
+    }
+    fn lean(&self) -> String {
+        match self {
+            EdgeGuard::Never => ".never".into(),
+            EdgeGuard::Always => ".always".into(),
+            EdgeGuard::Kinds(k) => format!(".kinds [{}]", k.iter().map(|x| format!(".{x}")).collect::<Vec<_>>().join(", ")),
+        }
+    }
+}
+
+const ADD_EDGE: &str = "self.references.add_edge(ctx.item,dec.name)";
+
+struct EdgeWalk {
+    arm: &'static str,
+    exits: Vec<(&'static str, String, EdgeGuard)>,
+}
+
+/// does the expression mention `add_edge` or build a `ResolvedPath`?
+fn mentions_edge_or_exit<T: ToTokens>(t: &T) -> bool {
+    let s = norm(t);
+    s.contains("add_edge") || s.contains("ResolvedPath::")
+}
+
+/// `ValueKind::Constant | ValueKind::Context(..)` ↦ [constant, context]
+fn value_kinds(p: &syn::Pat) -> Option<Vec<String>> {
+    let alts: Vec<&syn::Pat> = match p {
+        syn::Pat::Or(o) => o.cases.iter().collect(),
+        x => vec![x],
+    };
+    let mut out = vec![];
+    for a in alts {
+        let s = norm(a);
+        let k = match s.as_str() {
+            "ValueKind::Constant" => "constant",
+            "ValueKind::Context(..)" | "ValueKind::Context(_)" => "context",
+            "ValueKind::Local" => "localV",
+            _ => return None,
+        };
+        out.push(k.to_string());
+    }
+    Some(out)
+}
+
+impl EdgeWalk {
+    fn block(&mut self, b: &syn::Block, st: EdgeGuard) -> Result<EdgeGuard, String> {
+        let mut st = st;
+        for s in &b.stmts {
+            st = self.stmt(s, st)?;
+        }
+        Ok(st)
+    }
+
+    fn stmt(&mut self, s: &syn::Stmt, st: EdgeGuard) -> Result<EdgeGuard, String> {
+        match s {
+            syn::Stmt::Local(l) => {
+                if is_verif_cfg(&l.attrs) {
+                    return Ok(st);
+                }
+                let mut st = st;
+                if let Some(init) = &l.init {
+                    st = self.expr(&init.expr, st)?;
+                    if let Some((_, div)) = &init.diverge {
+                        // `let … else { … }`: the else block leaves the function
+                        self.expr(div, st.clone())?;
+                    }
+                }
+                Ok(st)
+            }
+            syn::Stmt::Expr(e, _) => self.expr(e, st),
+            syn::Stmt::Macro(m) => {
+                if mentions_edge_or_exit(&m.mac.tokens) {
+                    return Err(format!("resolve_expression_path: `{}` inside a macro", norm(&m.mac)));
+                }
+                Ok(st)
+            }
+            syn::Stmt::Item(_) => Ok(st),
+        }
+    }
+
+    fn expr(&mut self, e: &syn::Expr, st: EdgeGuard) -> Result<EdgeGuard, String> {
+        if !mentions_edge_or_exit(e) {
+            return Ok(st);
+        }
+        match e {
+            syn::Expr::MethodCall(m) if m.method == "add_edge" => {
+                if is_verif_cfg(&m.attrs) {
+                    return Ok(st);
+                }
+                if norm(m) == ADD_EDGE {
+                    Ok(EdgeGuard::Always)
+                } else {
+                    Err(format!("resolve_expression_path: edge `{}` is not from the current item to the resolved declaration", norm(m)))
+                }
+            }
+            syn::Expr::Return(r) => match &r.expr {
+                Some(x) => self.expr(x, st),
+                None => Ok(st),
+            },
+            syn::Expr::Paren(p) => self.expr(&p.expr, st),
+            syn::Expr::Call(c) if norm(&c.func) == "Ok" && c.args.len() == 1 => {
+                let a = norm(&c.args[0]);
+                match a.strip_prefix("ResolvedPath::") {
+                    Some(rest) => {
+                        let ctor: String = rest.chars().take_while(|ch| ch.is_alphanumeric() || *ch == '_').collect();
+                        self.exits.push((self.arm, ctor, st.clone()));
+                        Ok(st)
+                    }
+                    None => Err(format!("resolve_expression_path: `{a}` returned in a form the translator does not know")),
+                }
+            }
+            syn::Expr::Call(c) if norm(&c.func) == "Err" => Ok(st),
+            syn::Expr::Block(b) => self.block(&b.block, st),
+            syn::Expr::If(i) => {
+                // the kind test: `if let ValueKind::… | … = kind { add_edge }`
+                if let syn::Expr::Let(l) = &*i.cond {
+                    if let Some(kinds) = value_kinds(&l.pat) {
+                        let sc = norm(&l.expr);
+                        if (sc == "kind" || sc == "*kind") && i.else_branch.is_none() {
+                            let inner = self.block(&i.then_branch, st.clone())?;
+                            return Ok(match (&st, &inner) {
+                                (EdgeGuard::Never, EdgeGuard::Always) => EdgeGuard::Kinds(kinds),
+                                (EdgeGuard::Kinds(k0), EdgeGuard::Always) => {
+                                    let mut v = k0.clone();
+                                    for k in kinds {
+                                        if !v.contains(&k) {
+                                            v.push(k);
+                                        }
+                                    }
+                                    EdgeGuard::Kinds(v)
+                                }
+                                _ => st.meet(&inner),
+                            });
+                        }
+                    }
+                }
+                if mentions_edge_or_exit(&i.cond) {
+                    return Err(format!("resolve_expression_path: condition `{}`", norm(&i.cond)));
+                }
+                let a = self.block(&i.then_branch, st.clone())?;
+                let b = match &i.else_branch {
+                    Some((_, x)) => self.expr(x, st.clone())?,
+                    None => st.clone(),
+                };
+                Ok(a.meet(&b))
+            }
+            syn::Expr::While(w) => {
+                if mentions_edge_or_exit(&w.cond) {
+                    return Err(format!("resolve_expression_path: loop condition `{}`", norm(&w.cond)));
+                }
+                let a = self.block(&w.body, st.clone())?;
+                Ok(st.meet(&a))
+            }
+            syn::Expr::ForLoop(f) => {
+                let a = self.block(&f.body, st.clone())?;
+                Ok(st.meet(&a))
+            }
+            syn::Expr::Loop(l) => {
+                let a = self.block(&l.body, st.clone())?;
+                Ok(st.meet(&a))
+            }
+            syn::Expr::Match(m) => {
+                if mentions_edge_or_exit(&m.expr) {
+                    return Err(format!("resolve_expression_path: match on `{}`", norm(&m.expr)));
+                }
+                let mut out: Option<EdgeGuard> = None;
+                for a in &m.arms {
+                    let x = self.expr(&a.body, st.clone())?;
+                    out = Some(match out {
+                        None => x,
+                        Some(o) => o.meet(&x),
+                    });
+                }
+                Ok(out.unwrap_or(st))
+            }
+            other => Err(format!(
+                "resolve_expression_path: `{}` records an edge or builds the result in a position the translator does not know",
+                norm(other)
+            )),
+        }
+    }
+}
+
+fn edge_exits(file: &syn::File) -> Result<Vec<(&'static str, String, EdgeGuard)>, String> {
+    let f = find::func(file, "resolve_expression_path", None)?;
+    let ms = find::matches_on(&f.block, "&dec.kind");
+    if ms.len() != 1 {
+        return Err(format!("resolve_expression_path: {} matches on `&dec.kind`", ms.len()));
+    }
+    // no edge may be recorded outside the match (it would not know the declaration kind)
+    for st in &f.block.stmts {
+        let is_match = matches!(st, syn::Stmt::Expr(syn::Expr::Match(m), _) if norm(&m.expr) == "&dec.kind");
+        if !is_match && norm(st).contains("add_edge") {
+            return Err("resolve_expression_path: add_edge outside `match &dec.kind`".into());
+        }
+    }
+    let mut exits = vec![];
+    for arm in &ms[0].arms {
+        let p = norm(&arm.pat);
+        let name: &'static str = if p.contains("DeclarationKind::Function(Some") || p.contains("DeclarationKind::Method(Some") {
+            "function"
+        } else if p.starts_with("DeclarationKind::Value(") {
+            "value"
+        } else if p.contains("DeclarationKind::Enum(Some") {
+            "enumCtor"
+        } else {
+            "other"
+        };
+        let mut w = EdgeWalk { arm: name, exits: vec![] };
+        w.expr(&arm.body, EdgeGuard::Never)?;
+        if name == "other" && !w.exits.is_empty() {
+            return Err(format!("resolve_expression_path: arm `{p}` yields a value; the translator does not know this declaration kind"));
+        }
+        exits.extend(w.exits);
+    }
+    Ok(exits)
+}
+
+fn c14edges(repo: &Path) -> Result<String, String> {
+    let ex = find::parse(repo, "src/typechecker/expr.rs")?;
+    let exits = edge_exits(&ex)?;
+    let res_name = |c: &str| -> Result<&'static str, String> {
+        Ok(match c {
+            "Function" => "function",
+            "Method" => "method",
+            "Value" => "value",
+            "StaticMethod" => "staticMethod",
+            "EnumConstructor" => "enumCtor",
+            x => return Err(format!("resolve_expression_path: unknown result `ResolvedPath::{x}`")),
+        })
+    };
+    let mut rows = vec![];
+    for (arm, ctor, g) in &exits {
+        rows.push(format!("  ⟨.{}, .{}, {}⟩", arm, res_name(ctor)?, g.lean()));
+    }
+    let mut s = String::new();
+    s.push_str("/- GENERATED by /verif/extract (target c14edges) from src/typechecker/expr.rs — do not edit. -/
+import RotoV.Model.TarjanEdges
+namespace RotoV.Gen.C14Edges
+open RotoV.TarjanEdges
+
+");
+    s.push_str("/-- `resolve_expression_path`: every exit `Ok(ResolvedPath::…)` of every arm of `match &dec.kind`, in source order, with the condition under which `self.references.add_edge(ctx.item, dec.name)` has run before it -/
+");
+    s.push_str(&format!("def exits : List Exit := [\n{}\n]\n", rows.join(",\n")));
+    s.push_str("\nend RotoV.Gen.C14Edges\n");
     Ok(s)
 }
